@@ -88,3 +88,270 @@ def _(mod):
     while edit_first(f, pred, ed):
         ok = True
     return ok
+
+
+# ------------------------------------------------------------------ C05
+@variant("c05-dedupe-wrong-list", "break", ["C05"], SES, "A9", "dedupe", "client arm records its sequence numbers in the server list")
+def _(mod):
+    f = get_func(mod, "Session.handle_packet")
+    def pred(n):
+        return (isinstance(n, ast.Expr) and isinstance(n.value, ast.Call) and dotted(n.value.func) == "self.seen_packets_client.append")
+    return edit_first(f, pred, lambda n: parse_stmt("self.seen_packets_server.append(sequence)"))
+
+
+@variant("c05-drop-empty-skip", "break", ["C05"], MAIN, "A6a", "empty-segment", "empty-segment continue removed in the TCP arm")
+def _(mod):
+    f = get_func(mod, "run")
+    def pred(n):
+        return isinstance(n, ast.If) and "tls_data" in ast.unparse(n.test) and any(isinstance(x, ast.Continue) for x in n.body)
+    return edit_first(f, pred, lambda n: None)
+
+
+@variant("c05-need-data-always-false", "break", ["C05", "C08"], SES, "FR", "whole-records", "short remainder treated as complete")
+def _(mod):
+    f = get_func(mod, "Session.extract_server_buf")
+    def pred(n):
+        return isinstance(n, ast.Assign) and dotted(n.targets[0]) == "need_data" and isinstance(n.value, ast.Constant) and n.value.value is True
+    def ed(n):
+        n.value = ast.Constant(False)
+        return n
+    return edit_first(f, pred, ed)
+
+
+@variant("c05-overlap-off-by-one", "break", ["C05", "C07"], SES, "FR", "overlap", "overlap test uses <= for the start (attributes the previous packet too)")
+def _(mod):
+    f = get_func(mod, "Session.extract_client_buf")
+    def pred(n):
+        return isinstance(n, ast.Compare) and ast.unparse(n) == "index < packet_range[1]"
+    def ed(n):
+        n.ops = [ast.LtE()]
+        return n
+    return edit_first(f, pred, ed)
+
+
+@variant("c05-preserve-swap-arms", "preserve", ["C05"], SES, desc="handle_packet: if/else swapped with negated test")
+def _(mod):
+    f = get_func(mod, "Session.handle_packet")
+    return edit_first(f, lambda n: isinstance(n, ast.If) and "server_ip" in ast.unparse(n.test), swap_if_else)
+
+
+# ------------------------------------------------------------------ C09
+@variant("c09-label-too-long", "break", ["C09"], KLR, "E2a", "label:", "label repeat bound 3..24 excludes *_HANDSHAKE_TRAFFIC_SECRET")
+def _(mod):
+    f = get_func(mod, "get_key_from_line")
+    def pred(n):
+        return isinstance(n, ast.Constant) and isinstance(n.value, str) and "{3,32}" in n.value
+    def ed(n):
+        n.value = n.value.replace("{3,32}", "{3,24}")
+        return n
+    return edit_first(f, pred, ed)
+
+
+@variant("c09-no-cr-strip", "break", ["C09"], KLR, "E2b", "cr-strip", "CR removal dropped")
+def _(mod):
+    f = get_func(mod, "get_keys_from_string")
+    def pred(n):
+        return isinstance(n, ast.Assign) and isinstance(n.value, ast.Call) and isinstance(n.value.func, ast.Attribute) and n.value.func.attr == "replace"
+    return edit_first(f, pred, lambda n: None)
+
+
+@variant("c09-compare-no-lower", "break", ["C09", "C04"], SES, "D7", "client-random-match", "case normalisation removed on the key-log side")
+def _(mod):
+    f = get_func(mod, "Session.find_session_secrets")
+    def pred(n):
+        return isinstance(n, ast.Compare) and "client_random" in ast.unparse(n)
+    def ed(n):
+        n.left = parse_expr("secret.client_random")
+        return n
+    return edit_first(f, pred, ed)
+
+
+@variant("c09-preserve-splitlines", "preserve", ["C09"], KLR, desc="replace+split -> splitlines()")
+def _(mod):
+    f = get_func(mod, "get_keys_from_string")
+    ok1 = edit_first(f, lambda n: isinstance(n, ast.Assign) and isinstance(n.value, ast.Call) and getattr(n.value.func, "attr", "") == "replace", lambda n: None)
+    ok2 = edit_first(f, lambda n: isinstance(n, ast.Assign) and isinstance(n.value, ast.Call) and getattr(n.value.func, "attr", "") == "split",
+                     lambda n: parse_stmt("lines = key_str.splitlines()"))
+    return ok1 and ok2
+
+
+# ------------------------------------------------------------------ C10
+@variant("c10-rewrite-unconditional", "break", ["C10"], OB, "D4", "port-rewrite-gate", "TLS builder rewrites the server port regardless of -m")
+def _(mod):
+    f = get_func(mod, "OutputBuilder.__init__")
+    def pred(n):
+        return isinstance(n, ast.If) and "keep_original_ports" in ast.unparse(n.test)
+    return edit_first(f, pred, lambda n: n.body)
+
+
+@variant("c10-session-any-port", "break", ["C10"], MAIN, "A6c", "session-creation-gate", "session created for any TCP packet")
+def _(mod):
+    f = get_func(mod, "handle_packet")
+    def pred(n):
+        return isinstance(n, ast.If) and "server_ports" in ast.unparse(n.test)
+    return edit_first(f, pred, lambda n: n.body)
+
+
+@variant("c10-roles-swapped", "break", ["C10", "C07"], SES, "B3b", "role-binding", "server := destination side when the source port is a server port")
+def _(mod):
+    f = get_func(mod, "Session.set_client_and_server_ports")
+    def pred(n):
+        return isinstance(n, ast.If) and "server_ports" in ast.unparse(n.test)
+    def ed(n):
+        n.body, n.orelse = n.orelse, n.body
+        return n
+    return edit_first(f, pred, ed)
+
+
+# ------------------------------------------------------------------ C11
+@variant("c11-fold-off-by-one", "break", ["C11"], CHK, "FOLD", "fold-guard", "fold guard > 0x10000 (two off)")
+def _(mod):
+    f = get_func(mod, "ones_complement_checksum")
+    def ed(n):
+        n.test = parse_expr("checksum > 65537")
+        return n
+    return edit_first(f, lambda n: isinstance(n, ast.While), ed)
+
+
+@variant("c11-v6-length-width", "break", ["C11"], CHK, "T9c", "pseudo-header-v6", "IPv6 upper-layer length written as 2 bytes")
+def _(mod):
+    f = get_func(mod, "calculate_checksum_tcp")
+    def pred(n):
+        return isinstance(n, ast.Call) and ast.unparse(n) == "len(packet.tcp).to_bytes(4, 'big')"
+    def ed(n):
+        n.args[0] = ast.Constant(2)
+        return n
+    return edit_first(f, pred, ed)
+
+
+@variant("c11-dispatch-ungated", "break", ["C11"], MAIN, "A6b", "checksum-gate", "TCP dispatch no longer tests the verdict")
+def _(mod):
+    f = get_func(mod, "run")
+    def pred(n):
+        return isinstance(n, ast.If) and ast.unparse(n.test) == "packet.tcp_packet and checksum_test"
+    def ed(n):
+        n.test = parse_expr("packet.tcp_packet")
+        return n
+    return edit_first(f, pred, ed)
+
+
+# ------------------------------------------------------------------ C12
+@variant("c12-swap-le-class", "break", ["C12"], DSB, "E3", "byte-order-site", "EPB classes swapped between the byte orders")
+def _(mod):
+    f = get_func(mod, "Reader.__iter__")
+    def pred(n):
+        return isinstance(n, ast.IfExp) and "EnhancedPacketBlockLE" in ast.unparse(n.body)
+    def ed(n):
+        n.body, n.orelse = n.orelse, n.body
+        return n
+    return edit_first(f, pred, ed)
+
+
+@variant("c12-tsresol-mask", "break", ["C12"], DSB, "T9p", "tsresol", "exponent masked with 0x3f")
+def _(mod):
+    f = get_func(mod, "Reader.__init__")
+    def pred(n):
+        return isinstance(n, ast.BinOp) and isinstance(n.op, ast.BitAnd) and isinstance(n.right, ast.Constant) and n.right.value == 0x7f
+    def ed(n):
+        n.right = ast.Constant(0x3f)
+        return n
+    return edit_first(f, pred, ed)
+
+
+@variant("c12-conditional-skip", "break", ["C12"], DSB, "T9p", "block-consumption", "block body only read for known block types")
+def _(mod):
+    f = get_func(mod, "Reader.__iter__")
+    def pred(n):
+        return isinstance(n, ast.AugAssign) and "read(blk_len - 8)" in ast.unparse(n)
+    def ed(n):
+        return ast.If(test=parse_expr("blk_type in (dpng.PCAPNG_BT_EPB, dpng.PCAPNG_BT_PB, PCAPNG_BT_DSB)"), body=[n], orelse=[])
+    return edit_first(f, pred, ed)
+
+
+# ------------------------------------------------------------------ C13
+@variant("c13-stream-under-meta", "break", ["C13"], QOB, "D5", "stream-independent", "STREAM selection nested under `if metadata`")
+def _(mod):
+    f = get_func(mod, "QUICOutputbuilder.build")
+    holder = {}
+    def pred(n):
+        return isinstance(n, ast.If) and "0x08" in ast.unparse(n.test).lower().replace("8,", "0x08,") or (isinstance(n, ast.If) and "frame.frame_type in" in ast.unparse(n.test))
+    def ed(n):
+        return ast.If(test=parse_expr("metadata"), body=[n], orelse=[])
+    return edit_first(f, pred, ed)
+
+
+@variant("c13-meta-touches-gate", "break", ["C13"], SES, "D5", "meta-dependent", "metadata branch also resets can_decrypt")
+def _(mod):
+    f = get_func(mod, "Session.handle_tls_record")
+    def pred(n):
+        return isinstance(n, ast.If) and ast.unparse(n.test) == "self.exp_meta"
+    def ed(n):
+        n.body.append(parse_stmt("self.can_decrypt = False"))
+        return n
+    return edit_first(f, pred, ed, nth=3)
+
+
+# ------------------------------------------------------------------ C16
+@variant("c16-le-to-lt", "break", ["C16"], QS, "E1", ":c1", "A.3 first window test <= changed to <")
+def _(mod):
+    f = get_func(mod, "QuicSession.get_full_packet_number")
+    def pred(n):
+        return isinstance(n, ast.Compare) and isinstance(n.ops[0], ast.LtE) and "candidate_pkn" in ast.unparse(n)
+    def ed(n):
+        n.ops = [ast.Lt()]
+        return n
+    return edit_first(f, pred, ed)
+
+
+@variant("c16-expected-no-plus-one", "break", ["C16"], QS, "E1", "", "expected = largest (missing + 1)")
+def _(mod):
+    f = get_func(mod, "QuicSession.get_full_packet_number")
+    def ed(n):
+        n.value = parse_expr("largest_pkn")
+        return n
+    return edit_first(f, is_assign_to("expected_pkn"), ed)
+
+
+@variant("c16-shared-space-split", "break", ["C16"], QS, "PNS", "spaces", "0-RTT mapped to its own space")
+def _(mod):
+    d = _dict_assign(mod, "PACKET_TYPE_MAP")
+    for k, v in zip(d.keys, d.values):
+        if ast.unparse(k).endswith("RTT_O"):
+            d.values[d.keys.index(k)] = parse_expr("(QuicPacketType.RTT_O,)")
+            return True
+
+
+@variant("c16-preserve-shift", "preserve", ["C16"], QS, desc="len*8 -> len<<3 and window>>1 style rewrites keep the normal form")
+def _(mod):
+    f = get_func(mod, "QuicSession.get_full_packet_number")
+    def ed(n):
+        n.value = parse_expr("truncated_pkn_len << 3")
+        return n
+    return edit_first(f, is_assign_to("pkn_len_bits"), ed)
+
+
+@variant("c16-preserve-inline", "preserve", ["C16"], QS, desc="mask temporary inlined")
+def _(mod):
+    f = get_func(mod, "QuicSession.get_full_packet_number")
+    def ed(n):
+        n.value = parse_expr("(expected_pkn & ~(pkn_window - 1)) | truncated_pkn")
+        return n
+    return edit_first(f, is_assign_to("candidate_pkn"), ed)
+
+
+# ------------------------------------------------------------------ C18
+@variant("c18-time-call", "break", ["C18"], OB, "D6b", "nondeterminism", "builder stamps packets with time.time()")
+def _(mod):
+    f = get_func(mod, "OutputBuilder.build")
+    mod.body.insert(0, ast.Import(names=[ast.alias(name="time")]))
+    def ed(n):
+        return [n, parse_stmt("self.ts_zero = self.ts_zero or time.time()")]
+    return edit_first(f, is_assign_to("self.ts_zero"), ed)
+
+
+@variant("c18-class-level-cache", "break", ["C18", "C04"], "tlexport/decryptor.py", "D6a", "ownership", "class-level dict shared by all Decryptor instances")
+def _(mod):
+    for st in mod.body:
+        if isinstance(st, ast.ClassDef) and st.name == "Decryptor":
+            st.body.insert(0, parse_stmt("_cipher_cache = {}"))
+            return True
